@@ -87,7 +87,16 @@ func init() {
 		MustReach: []string{"configs"}}
 	vkChecks["C11"] = func(args []string) int { return runSimCheck(c11, args) }
 	c06 := &simCheckSpec{Prop: "C06", Oracles: []string{"durable"},
-		Scenarios: func(t string) []*simScenario { return memberScenarios(t, []string{"durable"}, 1) }, Budget: budget,
+		Scenarios: func(t string) []*simScenario {
+			out := memberScenarios(t, []string{"durable"}, 1)
+			// flushing after the log was compacted / reset by a snapshot installation
+			for _, name := range []string{"lagging", "full"} {
+				sc := scenSnap(snapSeeds[snapSeedIndex(name)], 2, true, true, 1)
+				sc.Oracles = []string{"durable"}
+				out = append(out, sc)
+			}
+			return out
+		}, Budget: budget,
 		MustReach: []string{"commits"},
 		Assume:    []string{"'crash of all nodes now' is a byte copy of every storage directory taken while all goroutines are parked, reopened with the real openStorage (process-crash model: completed file operations survive)"}}
 	vkChecks["C06"] = func(args []string) int { return runSimCheck(c06, args) }
